@@ -87,6 +87,7 @@ public:
     try
     {
       load();
+      dropExpiredAfterLoad();
       openLogFile();
       if (_config.enableBackgroundCompaction)
       {
@@ -1294,10 +1295,29 @@ private:
     return true;
   }
 
-  void load()
+  /// \brief Drop every replayed key whose expiry has passed. Expiry is judged
+  /// ONCE, against the final replayed state: judging an intermediate 'E'/'X'
+  /// record (or snapshot entry) against load-time now would drop a key that a
+  /// later record - a persist or an extension - keeps alive.
+  void dropExpiredAfterLoad()
   {
     const auto now = std::chrono::system_clock::now();
+    for (auto it = _expiry.begin(); it != _expiry.end();)
+    {
+      if (it->second.expiry <= now)
+      {
+        _kv.erase(it->first);
+        it = _expiry.erase(it);
+      }
+      else
+      {
+        ++it;
+      }
+    }
+  }
 
+  void load()
+  {
     // Load snapshot with robust error handling
     std::ifstream snapshot(_path, std::ios::binary);
     if (snapshot.is_open())
@@ -1373,13 +1393,10 @@ private:
           }
           else if (isPlausibleEpochMs(expiryMs))
           {
-            const auto exp = fromEpochMs(expiryMs);
-            if (exp > now)
-            {
-              _kv[key] = std::move(value);
-              _expiry[key] = ExpiryEntry{exp, core::InvalidTimerId};
-            }
-            // else: already expired at load — drop the entry entirely.
+            // Kept even if already expired: a later 'X' record in the log may
+            // still extend or clear it (see dropExpiredAfterLoad()).
+            _kv[key] = std::move(value);
+            _expiry[key] = ExpiryEntry{fromEpochMs(expiryMs), core::InvalidTimerId};
           }
           // else: implausible (corrupt) expiry — drop the entry, mirroring the
           // 'E' log op's sanity-bound rejection (KTP-11). NOT kept as eternal.
@@ -1504,17 +1521,8 @@ private:
         }
         std::vector<std::uint8_t> value(valLen);
         std::memcpy(value.data(), ptr, valLen);
-        const auto exp = fromEpochMs(expiryMs);
-        if (exp > now)
-        {
-          _kv[key] = std::move(value);
-          _expiry[key] = ExpiryEntry{exp, core::InvalidTimerId};
-        }
-        else
-        {
-          _kv.erase(key); // already expired → drop
-          _expiry.erase(key);
-        }
+        _kv[key] = std::move(value);
+        _expiry[key] = ExpiryEntry{fromEpochMs(expiryMs), core::InvalidTimerId};
       }
       else if (op == 'X')
       {
@@ -1534,16 +1542,7 @@ private:
         }
         else if (isPlausibleEpochMs(expiryMs))
         {
-          const auto exp = fromEpochMs(expiryMs);
-          if (exp > now)
-          {
-            _expiry[key] = ExpiryEntry{exp, core::InvalidTimerId};
-          }
-          else
-          {
-            _kv.erase(key); // expiry already past → drop the key
-            _expiry.erase(key);
-          }
+          _expiry[key] = ExpiryEntry{fromEpochMs(expiryMs), core::InvalidTimerId};
         }
         // implausible expiry → ignore
       }
